@@ -30,6 +30,8 @@ type Ctx struct {
 	mutGlobals map[string]bool        // globals stored to outside package initialisers
 	writeSets map[*ssa.Function]*WriteSet
 	wsBusy    map[*ssa.Function]bool
+	instWS    map[string]*WriteSet
+	instTmp   map[*ssa.Function]*WriteSet
 	mirrorUsed []string
 	opts      Options
 }
@@ -75,7 +77,7 @@ func loadProgram(repo string, patterns []string, overlay map[string][]byte) (*Ct
 	prog.Build()
 	c := &Ctx{repo: repo, prog: prog, fset: prog.Fset, pkgs: map[string]*ssa.Package{}, ppkgs: map[string]*packages.Package{},
 		funcs: map[string]*ssa.Function{}, fnKey: map[*ssa.Function]string{}, contracts: map[string]*ContractFile{},
-		escFields: map[string]bool{}, mutGlobals: map[string]bool{}, writeSets: map[*ssa.Function]*WriteSet{}, wsBusy: map[*ssa.Function]bool{}}
+		escFields: map[string]bool{}, mutGlobals: map[string]bool{}, writeSets: map[*ssa.Function]*WriteSet{}, wsBusy: map[*ssa.Function]bool{}, instWS: map[string]*WriteSet{}}
 	for i, sp := range spkgs {
 		if sp == nil {
 			continue
@@ -92,6 +94,11 @@ func loadProgram(repo string, patterns []string, overlay map[string][]byte) (*Ct
 	for path := range c.pkgs {
 		dir := pkgDir(path)
 		f := filepath.Join(repo, dir, "verif_contracts.go")
+		if os.Getenv("VERIF_CONTRACTS") == "mirror" { // development: read the working copies under /verif/contracts
+			if m := filepath.Join(verifRoot(), "contracts", dir, "verif_contracts.go"); fileExists(m) {
+				f = m
+			}
+		}
 		if _, err := os.Stat(f); err != nil {
 			m := filepath.Join(verifRoot(), "contracts", dir, "verif_contracts.go")
 			if _, err2 := os.Stat(m); err2 != nil {
@@ -268,4 +275,9 @@ func (c *Ctx) scanEscFields() {
 
 func escKey(structT types.Type, idx int) string {
 	return fmt.Sprintf("%s#%d", typeKey(types.Unalias(structT)), idx)
+}
+
+func fileExists(p string) bool {
+	_, err := os.Stat(p)
+	return err == nil
 }
